@@ -302,6 +302,19 @@ func (k gateKey) String() string {
 type memoGateRunner struct{}
 
 func (memoGateRunner) Do(op []string) string {
+	if op[0] == "emptyresult" {
+		// the string-valued instantiation with a callback that SUCCEEDS with the empty string (which the cache refuses
+		// to store): the caller must get that value and no error -- "the value (or error) produced by an execution"
+		m := gogu.NewMemoizer[string, string](time.Hour, 0)
+		calls := 0
+		fn := func() (*cache.Item[string], error) {
+			calls++
+			return nil, nil // a nil item is the zero value "" (Item.Val of nil)
+		}
+		it, err := m.Memoize("k", fn)
+		it2, err2 := m.Memoize("k", fn)
+		return errs(err) + " " + hx(it.Val()) + " " + errs(err2) + " " + hx(it2.Val()) + " " + itoa(calls)
+	}
 	if op[0] != "gate" {
 		panic("harness: bad op " + op[0])
 	}
@@ -341,7 +354,7 @@ var memoLat = []int{0, 5, 40}
 func genC17(g *Gen) {
 	// (0) a complete call for the same key inside the window between the outer caller's cache miss and its group.Do
 	if g.Mine() {
-		g.Emit("memogate", nil, []string{"gate 7", "gate 0", "gate -3"})
+		g.Emit("memogate", nil, []string{"gate 7", "gate 0", "gate -3", "emptyresult"})
 	}
 	// (1) every sequential call pattern: letters = key {0,1} x outcome {v,e} x {sleep past expiry afterwards or not},
 	//     latency cycling through {5,0,40}; Cache.Get of both keys after every call; expiration none / 30 ms.
